@@ -11,7 +11,8 @@ RULE = ("exhaustive product, both tiers: {cookie absent, each configured name, i
         "{default cookie name, custom name with a decoy cookie under the default name, default name while the request only "
         "carries a differently named cookie, custom name while the request only carries the default-named cookie} x "
         "Accept-Language headers (none, empty, single, lists with and without a space after the comma, q-values that do "
-        "not change the order, unsupported, malformed, wildcard) x {main context, resolve_locale_with_options, "
+        "not change the order, unsupported, malformed, wildcard) x {main context, the generated <I18nContextProvider> component with its "
+        "html-attribute props unset / true / false, resolve_locale_with_options alone and under an already provided context showing another locale, "
         "sub-context without parent, sub-context under a parent showing each locale} x {initial locale given or not}; "
         "non-trivial = a cookie is present in the request or the header has at least one entry; distinct = distinct cases")
 
@@ -105,6 +106,8 @@ class Interner:
 
 def gen_cases(ctx, names):
     shapes = [("root", None, None), ("fn", None, None)]
+    # `resolve_locale*` called where a context is already provided (showing some locale): the answer depends on the request only
+    ambients = list(names) if not ctx.quick else ["fr-CA", "en"]
     inits = [None] + (list(names) if not ctx.quick else ["fr-CA", "en"])
     for parent in [None] + list(names):
         for init in inits:
@@ -121,13 +124,27 @@ def gen_cases(ctx, names):
                         cases.append({"kind": kind, "cookie_header": ch, "enable_cookie": enabled, "cookie_name": cname,
                                       "accept_language": hdr, "parent": parent, "initial": init,
                                       "_cookie": clabel.split(":")[0], "_name": nlabel})
+                    # the generated <I18nContextProvider> component: same precedence whatever its html-attribute props say
+                    for sd, sl in ((None, None), (False, None), (True, False), (None, False), (False, True)) if not ctx.quick else ((None, None), (False, None), (True, False)):
+                        c = {"kind": "component", "cookie_header": ch, "enable_cookie": enabled, "cookie_name": cname,
+                             "accept_language": hdr, "parent": None, "initial": None,
+                             "_cookie": clabel.split(":")[0], "_name": nlabel}
+                        if sd is not None:
+                            c["set_dir"] = sd
+                        if sl is not None:
+                            c["set_lang"] = sl
+                        cases.append(c)
+                    for a in ambients:
+                        cases.append({"kind": "fn", "cookie_header": ch, "enable_cookie": enabled, "cookie_name": cname,
+                                      "accept_language": hdr, "parent": None, "initial": None, "ambient": a,
+                                      "_cookie": clabel.split(":")[0], "_name": nlabel})
     return cases
 
 
 def lean_request(case, impl, names, avail, table, idx):
     hdr = case["accept_language"]
     needed = set(leptos_use_entries(hdr)) | {e.strip(" \t\n\x0c\r") for e in leptos_use_entries(hdr)} | set(rfc_entries(hdr))
-    return {"op": "ctx.resolve", "kind": case["kind"], "names": names, "avail": avail, "default": 0,
+    return {"op": "ctx.resolve", "kind": "root" if case["kind"] == "component" else case["kind"], "names": names, "avail": avail, "default": 0,
             "feature_cookie": True, "cookie_flag": case["enable_cookie"], "jar_value": impl["cookie_seen"],
             "header": hdr, "parse": [[s, table[s]] for s in sorted(needed)], "spec_accepted": rfc_entries(hdr),
             "initial": None if case["initial"] is None else idx[case["initial"]],
